@@ -93,9 +93,11 @@ def upd_tokens(update):
     for tgt, val in update.items():
         data = val.get("data", {})
         is_list = isinstance(data, list)
-        setts = val.get("settings", [])
-        toks += [hexs(tgt), "1" if val.get("replace", False) else "0", "1" if is_list else "0",
-                 str(len(setts))] + [hexs(s) for s in setts]
+        toks += [hexs(tgt), "1" if val.get("replace", False) else "0", "1" if is_list else "0"]
+        if "settings" in val:        # 's' list | 'n' = no "settings" entry (value.get("settings", None))
+            toks += ["s", str(len(val["settings"]))] + [hexs(s) for s in val["settings"]]
+        else:
+            toks.append("n")
         items = [(k, None) for k in data] if is_list else list(data.items())
         toks.append(str(len(items)))
         for k, v in items:
@@ -305,6 +307,12 @@ def check_case(C, tmp, text, update, remove):
         c = resolve(olds, snap, tgt)
         if c and snap[id(c[0])][4] != tgt:
             tags.add("address-changing")       # removing one of two duplicates renames the other
+    for tgt, v in update.items():
+        dd = v.get("data", {})
+        if v.get("replace", False) and isinstance(dd, dict) and any(x is not None for x in dd.values()):
+            # replace-mode data is documented as "already formatted" lines: a dict with values there is not a
+            # meaningful request (a created section formats it, an existing one takes the keys)
+            tags.add("replace-with-dict")
     addressed = {id(c[0]) for c in targets.values() if c} | {id(n) for n in rem_nodes}
     for p, ns in big.items():
         m = sum(1 for n in ns if id(n) in addressed)
@@ -408,14 +416,28 @@ def check_case(C, tmp, text, update, remove):
                 else:
                     sig = "C19:cp2k:requested-data-missing"
                 fails.append((sig, f"target {tgt}: data {list(n.data)}, requested {want_d}"))
-            if rep and "settings" not in val:
-                if list(n.settings) != s:
-                    fails.append(("C19:cp2k:replace-wipes-settings",
-                                  f"target {tgt}: settings {s} -> {n.settings} although no settings were requested"))
-                continue
-            want_s = list(setts) if rep else s + list(setts)
-            if list(n.settings) != want_s and not (id(n) in big_ids and list(n.settings) == s):
-                fails.append(("C19:cp2k:requested-settings-missing", f"target {tgt}: settings {n.settings}, requested {want_s}"))
+            if id(n) in big_ids and list(n.settings) == s and list(n.data) == d:
+                continue          # the bare-registered member of a >=3 group: reported above
+            now = list(n.settings)
+            if "settings" not in val:
+                # no section parameters requested: they stay, in merge and in replace mode
+                if now != s:
+                    fails.append(("C19:cp2k:replace-wipes-settings" if rep else "C19:cp2k:unrequested-change",
+                                  f"target {tgt}: settings {s} -> {now} although no settings were requested"))
+            elif rep:
+                if now != list(setts):
+                    fails.append(("C19:cp2k:requested-settings-missing",
+                                  f"target {tgt}: settings {now}, requested (replace) {list(setts)}"))
+            else:
+                # merge: the old parameters stay in front, every requested one is present afterwards, and a
+                # requested parameter that was already there is not repeated
+                added = now[len(s):]
+                if now[:len(s)] != s or any(x not in now for x in setts) or any(x not in setts for x in added):
+                    fails.append(("C19:cp2k:requested-settings-missing",
+                                  f"target {tgt}: settings {s} -> {now}, requested {list(setts)}"))
+                elif any(x in s for x in added):
+                    fails.append(("C19:cp2k:settings-appended-twice",
+                                  f"target {tgt}: settings {s} -> {now}: {[x for x in added if x in s]} repeated"))
         else:
             # a section to create: title = last segment, requested lines, requested settings
             n = created.get(tgt)
@@ -424,12 +446,18 @@ def check_case(C, tmp, text, update, remove):
             if n is None:
                 fails.append(("C19:cp2k:new-section-missing", f"target {tgt} was not created"))
                 continue
-            if isinstance(data, list) or rep:
-                want_d = [str(k) for k in data]
-            else:
-                want_d = expected_lines([], data)
-            if list(n.data) != want_d:
+            # a created section carries the requested lines: `KEY value` (bare KEY for None) for a dict, the
+            # lines themselves for a list — also in replace mode (nothing to replace yet)
+            want_d = [str(k) for k in data] if isinstance(data, list) else expected_lines([], data)
+            rep_dict = rep and isinstance(data, dict) and any(x is not None for x in data.values())
+            # (replace + dict with values is not a meaningful request: the section may already have been
+            #  created as a missing parent by an earlier entry, and replace then stores the keys)
+            if list(n.data) != want_d and not rep_dict:
                 fails.append(("C19:cp2k:new-section-drops-values", f"new section {tgt}: data {list(n.data)}, requested {want_d}"))
+            want_s = list(val["settings"]) if val.get("settings") else []
+            if list(n.settings or []) != want_s:
+                fails.append(("C19:cp2k:requested-settings-missing",
+                              f"new section {tgt}: settings {n.settings}, requested {want_s}"))
     return r, fails, tags
 
 
@@ -465,6 +493,24 @@ def _through_suffixed(rec, update):
     return False
 
 
+def _entry_signature(rec, rec2, tgt, v):
+    """the defect class an update entry that is not idempotent ON ITS OWN belongs to"""
+    one = {tgt: v}
+    if _through_suffixed(rec, one) or (rec2 is not None and _through_suffixed(rec2, one)):
+        return "C19:cp2k:duplicate-children-unaddressable"
+    rep = v.get("replace", False)
+    d = v.get("data", {})
+    if v.get("settings") and not rep:
+        return "C19:cp2k:settings-appended-twice"
+    if rep and "settings" not in v:
+        return "C19:cp2k:replace-wipes-settings"
+    if isinstance(d, dict) and any(x is None for x in d.values()) and not rep:
+        return "C19:cp2k:none-value-printed-as-None"
+    if isinstance(d, dict) and d and not rep:
+        return "C19:cp2k:new-section-drops-values"
+    return "C19:cp2k:not-idempotent"
+
+
 def check_idempotent(C, tmp, r, update, remove, tags=()):
     """(b): applying the same edit to the output gives an equivalent tree; returns (Real2, fails)"""
     fails = []
@@ -473,24 +519,25 @@ def check_idempotent(C, tmp, r, update, remove, tags=()):
     r2 = Real(C, tmp, r.out_text, update, remove)
     a2 = r2.answer()
     if ("order-dependent" in tags or "address-changing" in tags or "unroundtrippable-request" in tags
-            or "nodes" not in r2.rec
+            or "replace-with-dict" in tags or "nodes" not in r2.rec
             or _order_dependent(r2.rec, update, remove)):
         return r2, fails
     if a2 != r.out_canon:
         upd = update or {}
-        sig = "C19:cp2k:not-idempotent"
-        if _through_suffixed(r.rec, upd) or _through_suffixed(r2.rec, upd):
-            sig = "C19:cp2k:duplicate-children-unaddressable"
-        elif any(v.get("replace", False) and "settings" not in v for v in upd.values()):
-            sig = "C19:cp2k:replace-wipes-settings"
-        elif any(v.get("settings") and not v.get("replace", False) for v in upd.values()):
-            sig = "C19:cp2k:settings-appended-twice"
-        elif any(isinstance(v.get("data"), dict) and any(x is None for x in v["data"].values())
-                 and not v.get("replace", False) for v in upd.values()):
-            sig = "C19:cp2k:none-value-printed-as-None"
-        elif any(isinstance(v.get("data"), dict) and v["data"] and not v.get("replace", False) for v in upd.values()):
-            sig = "C19:cp2k:new-section-drops-values"
-        fails.append((sig, f"second application changes the output: {r.out_canon} -> {a2}"))
+        # which entries are not idempotent on their own (on the same template)?  classify by those
+        sigs = []
+        for tgt, v in upd.items():
+            one = {tgt: copy.deepcopy(v)}
+            ra = Real(C, tmp, r.rec["text"] if "text" in r.rec else r.out_text, one, None)
+            if ra.err is not None or ra.out_canon is None or ra.out_canon.startswith("reread-"):
+                continue
+            rb = Real(C, tmp, ra.out_text, one, None)
+            if rb.answer() != ra.out_canon:
+                sigs.append(_entry_signature(ra.rec, rb.rec if "all" in rb.rec else None, tgt, v))
+        if not sigs:
+            sigs = ["C19:cp2k:not-idempotent"]
+        for sig in dict.fromkeys(sigs):
+            fails.append((sig, f"second application changes the output: {r.out_canon} -> {a2}"))
     return r2, fails
 
 
@@ -733,6 +780,10 @@ FIXED = [
     ("&A\n &K X\n &END K\n &K X\n &END K\n&END A\n", {"A->K->X": {"data": {"V": "9"}}}, ["A->K"]),
     ("&A\n &K X\n &END K\n &K Y\n &END K\n&END A\n", {"A->K->X->NEW": {"data": {}}}, None),
     ("&A\n&END\n\n&B\n&END\n", {"A": {"data": ["L 1", "L 1"], "replace": True, "settings": []}}, ["B", "B"]),
+    ("&A\n &K Y\n  V 2\n &END K\n&END A\n", {"A->K": {"replace": True, "data": ["W 9"]}}, None),
+    ("&A\n &K Y\n  V 2\n &END K\n&END A\n", {"A->K": {"settings": ["Y", "Z", "Z"], "data": {"V": None, "W": None}}}, None),
+    ("&A\n &K Y\n  V 2\n &END K\n&END A\n", {"A->K": {"replace": True, "settings": [], "data": {"V": None}}}, None),
+    ("&A\n&END A\n", {"A->NEW": {"replace": True, "settings": ["S"], "data": {"V": "1", "W": None}}}, None),
     ("&\n", None, None), ("&END\n", None, None), ("&A\n&ENDPOINT\n X 1\n&END\n", None, None), ("& END\n&END\n", None, None),
     ("", {"NEW->SUB": {"data": {"K": "1"}}}, None), ("X 1\n", {}, []),
 ]
@@ -836,11 +887,13 @@ def run_part(ctx):
         shutil.rmtree(tmp, ignore_errors=True)
     ctx.assumptions += [
         "cp2k part: ASCII templates; update values are sent to the model as str(value); settings lists are fresh objects "
-        "(no aliasing between update entries); settings=None not exercised",
+        "(no aliasing between update entries); an update entry either has no \"settings\" key or a list",
+        "cp2k part: replace=True together with dict data carrying values is excluded from the idempotence predicate "
+        "(replace-mode data is documented as already formatted lines)",
         "cp2k part: sibling order of a SectionNode's children (a Python set) is observed at run time and handed to the "
         "model; all outputs are compared as section trees with children sorted recursively",
     ]
-    return ("cp2k: 16 fixed boundary templates; every ASCII *.inp under /repo/examples and /repo/test unchanged, with the "
+    return ("cp2k: 20 fixed boundary templates; every ASCII *.inp under /repo/examples and /repo/test unchanged, with the "
             "engine's own update dict and with random edits of its sections; seeded random templates from a section grammar "
             "(depth ≤ 3, 2- and 3-member duplicate-title groups with equal/distinct settings, comment/data lines, blank "
             "lines, mixed case, CRLF, 15 % malformed: lone '&', stray/missing &END, &ENDPOINT, '& X', stray data) with "
